@@ -98,6 +98,8 @@ def fault_job(j):
     if clean_view is not None:
         clean_view = dict(clean_view)
         clean_rc = clean_view.pop("__clean_rc__", 0)
+        if not clean_view:
+            clean_view = None        # pairs: only the exit status of the fault-free run travels along
     L = X.materialize(cfg, saved, seed)
     c0 = L.content()
     rule = ";".join("%s:%s:%d:%d" % (path, call, n, err) for (path, call, n, err, pos) in faults)
@@ -268,7 +270,7 @@ def run(ctx):
                 eios = [f for f in singles if f[3] == EIO]
                 for a, b in itertools.combinations(eios, 2):
                     if a[0] != b[0] and a[4] != b[4]:
-                        jobs.append((cfg, saved, cmd, cache, (a, b), None, order, ctx.seed))
+                        jobs.append((cfg, saved, cmd, cache, (a, b), {"__clean_rc__": clean_view["__clean_rc__"]}, order, ctx.seed))
             done = 0
             for j, r in par.pmap(fault_job, jobs, deadline=ctx.deadline, chunksize=2):
                 done += 1
